@@ -880,6 +880,24 @@ class VecTr(Tr):
                 x, tx = self.expr(f.value, env)
                 if tx == "V":
                     return "(sum ROps %s)" % x, F
+            if meth in ("mean",) and not kw and [ast.unparse(a) for a in args] in (["1"], ["-1"]):
+                x, tx = self.expr(f.value, env)
+                if tx in ("V", "BV"):
+                    return "(mean ROps %s)" % self.coerce(x, tx, "V"), F
+            if meth in ("mul", "mul_", "div", "div_") and len(args) == 1 and not kw:
+                x, tx = self.expr(f.value, env)
+                y, ty = self.expr(args[0], env)
+                op = "Rmult" if meth.startswith("mul") else "Rdiv"
+                if tx in (F, Z) and ty in (F, Z):
+                    return "(%s %s %s)" % (op, self.coerce(x, tx, F), self.coerce(y, ty, F)), F
+                if tx in ("V", "BV") and ty in (F, Z):
+                    return "(map (fun x_ => %s x_ %s) %s)" % (op, self.coerce(y, ty, F), self.coerce(x, tx, "V")), "V"
+            if meth in ("abs", "abs_") and not args and not kw:
+                x, tx = self.expr(f.value, env)
+                if tx in (F, Z):
+                    return "(Rabs %s)" % self.coerce(x, tx, F), F
+                if tx == "V":
+                    return "(map Rabs %s)" % x, "V"
             if meth in ("add", "add_", "sub", "sub_") and len(args) == 1 and not kw:
                 x, tx = self.expr(f.value, env)
                 y, ty = self.expr(args[0], env)
@@ -888,6 +906,8 @@ class VecTr(Tr):
                     return "(%s ROps %s %s)" % ("vsub" if sub else "vadd", x, self.coerce(y, ty, "V")), "V"
                 if tx == F and ty in (F, Z):
                     return "(%s %s %s)" % ("Rminus" if sub else "Rplus", x, self.coerce(y, ty, F)), F
+                if tx in ("V", "BV") and ty in (F, Z):
+                    return "(map (fun x_ => %s x_ %s) %s)" % ("Rminus" if sub else "Rplus", self.coerce(y, ty, F), self.coerce(x, tx, "V")), "V"
             if meth in self.MAPS and not args and not kw:
                 x, tx = self.expr(f.value, env)
                 g = self.MAPS[meth]
